@@ -497,6 +497,14 @@ def _restore_names(q: str, node: ast.AST, tab: dict, log: list[str]) -> None:
 
 
 _INV: set[str] | None = None
+_SIMPLE: set[str] | None = None
+
+
+def _known_simple_names() -> set[str]:
+    global _SIMPLE
+    if _SIMPLE is None:
+        _SIMPLE = {q.rsplit('.', 1)[-1] for q in _inventory()}
+    return _SIMPLE
 
 
 def _inventory() -> set[str]:
@@ -542,6 +550,12 @@ def _inline_new_temps(q: str, fn: ast.AST, known_names: set[str], log: list[str]
                     v = st.targets[0].id
                     if v in known_names or v in params or count.get(v) != 2:
                         continue
+                    # a temporary that holds the result of a function the inventory does not know is left as a statement:
+                    # the helper inliner expands `t = helper(...)` there (it cannot inside a larger expression)
+                    cf_ = st.value.func if isinstance(st.value, ast.Call) else None
+                    cn_ = cf_.attr if isinstance(cf_, ast.Attribute) and isinstance(cf_.value, ast.Name) and cf_.value.id in ('self', 'cls') else (cf_.id if isinstance(cf_, ast.Name) else None)
+                    if os.environ.get('KFV_KEEP_HELPER_TEMPS') == '1' and cn_ is not None and cn_.startswith('_') and cn_ not in _known_simple_names():
+                        continue      # experimental (not yet run against the full corpus): see DESIGN.md section 8
                     # the single read: in the header of the next statement (not in a body executed repeatedly / later)
                     if isinstance(nx, (ast.Assign, ast.AugAssign, ast.AnnAssign, ast.Expr, ast.Return, ast.Raise, ast.Assert, ast.Delete)):
                         scope: list[ast.AST] = [nx]
